@@ -893,8 +893,10 @@ def contains(ev, container, item, node=None):
     if isinstance(container, Dct):
         if item in container.items:
             return TRUE
-        if not container.unknown and isinstance(item, Const):
+        if not container.unknown and (not container.items or (isinstance(item, Const) and all(isinstance(k, Const) for k in container.items))):
             return FALSE
+    if isinstance(item, App) and item.fn == "elem" and isinstance(container, V) and item.args[0] == container:
+        return TRUE
     if isinstance(container, Const) and isinstance(container.value, str) and isinstance(item, Const) and isinstance(item.value, str):
         return Const(item.value in container.value)
     return App("in", (as_v(ev, item), as_v(ev, container)))
